@@ -208,6 +208,8 @@ Ltac split_eqb :=
 Ltac use_pc_facts :=
   repeat match goal with
   | E : cpc ?S ?a = _ |- _ => progress (rewrite E in * )
+  | E : clock ?S = _ |- _ => progress (rewrite E in * )
+  | E : cwl ?S = _ |- _ => progress (rewrite E in * )
   end.
 
 Ltac cls := cbn [inclk cqueued credited pre_hold past_dl timed_pc oeq cinb negb andb orb] in *.
@@ -219,7 +221,7 @@ Ltac fin :=
 Ltac pt I :=
   let x := fresh "x" in intros x;
   let Hx := fresh "Hx" in pose proof (I x) as Hx;
-  unfold upd in *; cls; split_eqb; use_pc_facts; fin.
+  unfold upd in *; use_pc_facts; cls; split_eqb; use_pc_facts; fin.
 
 Ltac prep I H :=
   unfold wake_head, begin_unlock in H;
@@ -232,9 +234,260 @@ Ltac prep I H :=
   cbn [ms mid clock cwl wmx cpc tmd ulk dl now cret credit given taken
        set_ms set_cpc set_clock set_cwl set_wmx set_cret set_now set_call give take] in *.
 
+(* ci_hold across a mutex step EBegin/ETry... of thread t that is not (any longer) at CW0/CW1 *)
+Ltac pth Ihold t :=
+  let x := fresh "x" in let Hp := fresh "Hp" in
+  intros x Hp; unfold upd in Hp; destruct (Nat.eq_dec x t) as [->|Hne];
+  [ rewrite Nat.eqb_refl in Hp; cbn in Hp; discriminate
+  | rewrite (proj2 (Nat.eqb_neq x t) Hne) in Hp;
+    eapply holding_frame; [eassumption | apply Ihold; exact Hp | intros ? Eq; inversion Eq; congruence] ].
+
 Lemma inv_acq s t s' : CInv s -> cstep s (CAcq t) = Some s' -> CInv s'.
 Proof.
-  intros I H. cbn [cstep] in H. Time prep I H.
-  Show.
-  intros x. pose proof (Iclk x) as Hx. unfold upd in *. cls. Show. split_eqb. Show.
-Abort.
+  intros I H. cbn [cstep] in H. prep I H.
+  all: try assumption.
+  all: try solve [pt Iclk]. all: try solve [pt Iq]. all: try solve [pt Icr]. all: try solve [pt Icnt].
+  all: try solve [pt Ihold]. all: try solve [pt Idl]. all: try solve [pt Itm].
+  pth Ihold t.
+Qed.
+
+Lemma inv_bind s t m s' : CInv s -> cstep s (CBind t m) = Some s' -> CInv s'.
+Proof.
+  intros I H. cbn [cstep] in H. prep I H.
+  all: try assumption.
+  all: try solve [pt Iclk]. all: try solve [pt Iq]. all: try solve [pt Icr]. all: try solve [pt Icnt].
+  all: try solve [pt Ihold]. all: try solve [pt Idl]. all: try solve [pt Itm].
+  all: try solve [pth Ihold t].
+Qed.
+
+Lemma inv_begin s t k o s' : CInv s -> cstep s (CBegin t k o) = Some s' -> CInv s'.
+Proof.
+  intros I H. cbn [cstep] in H. prep I H.
+  all: try assumption.
+  all: try solve [pt Iclk]. all: try solve [pt Iq]. all: try solve [pt Icr]. all: try solve [pt Icnt].
+  all: try solve [pt Ihold]. all: try solve [pt Idl]. all: try solve [pt Itm].
+
+Qed.
+
+(* pointwise, with the credit fact of the same thread at hand *)
+Ltac ptc Icnt Icr :=
+  let x := fresh "x" in intros x;
+  let Hx := fresh "Hx" in pose proof (Icnt x) as Hx;
+  let Hc := fresh "Hc" in pose proof (Icr x) as Hc;
+  unfold upd in *; use_pc_facts; cls; split_eqb; use_pc_facts; cls;
+  try (destruct (credit _ _); try discriminate); fin.
+
+Lemma inv_end s t r s' : CInv s -> cstep s (CEnd t r) = Some s' -> CInv s'.
+Proof.
+  intros I H. cbn [cstep] in H. prep I H.
+  all: try assumption.
+  all: try solve [pt Iclk]. all: try solve [pt Iq]. all: try solve [pt Icr]. all: try solve [pt Icnt].
+  all: try solve [pt Ihold]. all: try solve [pt Idl]. all: try solve [pt Itm].
+  all: try solve [ptc Icnt Icr].
+Qed.
+
+Lemma inv_enq s t k s' : CInv s -> cstep s (CEnq t k) = Some s' -> CInv s'.
+Proof.
+  intros I H. cbn [cstep] in H. prep I H.
+  all: try assumption.
+  all: try solve [pt Iclk]. all: try solve [pt Iq]. all: try solve [pt Icr]. all: try solve [pt Icnt].
+  all: try solve [pt Ihold]. all: try solve [pt Idl]. all: try solve [pt Itm].
+  all: try solve [ intros x; rewrite cinb_app; pose proof (Iq x) as Hx; unfold upd; case_nat x t;
+                   use_pc_facts; cls; rewrite ?orb_true_r, ?orb_false_r; fin ].
+  all: rewrite map_app; cbn [map fst]; apply NoDup_snoc; [assumption|];
+       apply inb_false; change (cinb t (cwl s) = false); rewrite Iq; use_pc_facts; reflexivity.
+Qed.
+
+Lemma inv_rel s s' : CInv s -> cstep s CRel = Some s' -> CInv s'.
+Proof.
+  intros I H. cbn [cstep] in H. prep I H.
+  all: try assumption.
+  all: try solve [pt Iclk]. all: try solve [pt Iq]. all: try solve [pt Icr]. all: try solve [pt Icnt].
+  all: try solve [pt Ihold]. all: try solve [pt Idl]. all: try solve [pt Itm].
+
+Qed.
+
+Lemma wake_head_spec s x s1 : wake_head s x = Some s1 ->
+  exists b rest p, cwl s = (x, b) :: rest /\ woken_pc (cpc s x) = Some p /\
+                   s1 = give (set_cpc (set_cwl s rest) x p) x.
+Proof.
+  unfold wake_head. destruct (cwl s) as [|[y b] rest]; [discriminate|].
+  destruct (Nat.eqb_spec x y) as [->|]; [|discriminate].
+  destruct (woken_pc (cpc s y)) as [p|] eqn:W; [|discriminate].
+  intros H; inversion H. exists b, rest, p. auto.
+Qed.
+
+(* the state after the head x has been dequeued and made runnable, and the waker u moved on to q *)
+Lemma inv_wake s u x s1 q : CInv s -> clock s = Some u -> inclk (cpc s u) = true ->
+  wake_head s x = Some s1 ->
+  inclk q = true -> cqueued q = false -> credited q = false -> pre_hold q = false -> past_dl q = false ->
+  timed_pc q = false -> cqueued (cpc s u) = false -> credited (cpc s u) = false ->
+  CInv (set_cpc s1 u q).
+Proof.
+  intros I Hc Hu W Q1 Q2 Q3 Q4 Q5 Q6 Q7 Q8.
+  destruct (wake_head_spec _ _ _ W) as (b & rest & p & L & Wp & ->).
+  pose proof (ci_nd _ I) as Hnd. rewrite L in Hnd. pose proof (cinb_head_tail _ _ _ Hnd) as Hni.
+  assert (Hux : u <> x).
+  { intros ->. destruct (cpc s x); cbn in Wp, Hu; congruence. }
+  destruct I as [Iclk Iq Ind Icr Icnt Ihold Idl Itm].
+  constructor;
+  cbn [ms mid clock cwl wmx cpc tmd ulk dl now cret credit given taken
+       set_ms set_cpc set_clock set_cwl set_wmx set_cret set_now set_call give take] in *.
+  - intros y. pose proof (Iclk y) as Hy. unfold upd. rewrite Hc in *. cbn [oeq] in *.
+    case_nat y u; [rewrite Q1; reflexivity|]. case_nat y x; [|exact Hy].
+    destruct (cpc s x); cbn in Wp; try discriminate; inversion Wp; reflexivity.
+  - intros y. pose proof (Iq y) as Hy. rewrite L, cinb_cons in Hy. unfold upd.
+    case_nat y u.
+    + rewrite Q2. rewrite Q7 in Hy. destruct (Nat.eqb_spec u x); [contradiction|]. exact Hy.
+    + case_nat y x; [|exact Hy]. rewrite Hni.
+      destruct (cpc s x); cbn in Wp; try discriminate; inversion Wp; reflexivity.
+  - rewrite L in Ind. cbn in Ind. inversion Ind; assumption.
+  - intros y. pose proof (Icr y) as Hy. unfold upd.
+    case_nat y x.
+    + destruct (Nat.eqb_spec x u); [congruence|].
+      destruct (cpc s x); cbn in Wp; try discriminate; inversion Wp; reflexivity.
+    + case_nat y u; [rewrite Q3, Hy; exact Q8|exact Hy].
+  - intros y. pose proof (Icnt y) as Hy. pose proof (Icr y) as Hcy. unfold upd.
+    case_nat y x; [|exact Hy].
+    assert (credit s x = false) as Hf.
+    { rewrite Hcy. destruct (cpc s x); cbn in Wp; try discriminate; reflexivity. }
+    rewrite Hf in Hy. lia.
+  - intros y. unfold upd. case_nat y u; [rewrite Q4; discriminate|].
+    case_nat y x; [|apply Ihold].
+    destruct (cpc s x); cbn in Wp; try discriminate; inversion Wp; discriminate.
+  - intros y. unfold upd. case_nat y u; [rewrite Q5; discriminate|].
+    case_nat y x; [|apply Idl].
+    destruct (cpc s x); cbn in Wp; try discriminate; inversion Wp; discriminate.
+  - intros y. unfold upd. case_nat y u; [rewrite Q6; discriminate|].
+    case_nat y x; [|apply Itm].
+    intros Hp. destruct (cpc s x) eqn:Cx; cbn in Wp; try discriminate; inversion Wp; subst p;
+    cbn in Hp; try discriminate; apply Itm; rewrite Cx; reflexivity.
+Qed.
+
+Lemma inv_signal s o s' : CInv s -> cstep s (CSignal o) = Some s' -> CInv s'.
+Proof.
+  intros I H. cbn [cstep] in H.
+  destruct (clock s) as [u|] eqn:Hc; [|discriminate]. destruct (cpc s u) eqn:Cu; try discriminate.
+  destruct o as [x|]; destruct (cwl s) eqn:L; try discriminate.
+  - destruct (wake_head s x) as [s1|] eqn:W; [|discriminate]. inversion H; subst s'.
+    eapply inv_wake; eauto; rewrite ?Cu; reflexivity.
+  - inversion H; subst s'. clear H.
+    destruct I as [Iclk Iq Ind Icr Icnt Ihold Idl Itm]; constructor;
+    cbn [ms mid clock cwl wmx cpc tmd ulk dl now cret credit given taken set_cpc] in *.
+  all: try assumption.
+  all: try solve [pt Iclk]. all: try solve [pt Iq]. all: try solve [pt Icr]. all: try solve [pt Icnt].
+  all: try solve [pt Ihold]. all: try solve [pt Idl]. all: try solve [pt Itm].
+
+Qed.
+
+Lemma inv_cwake s x s' : CInv s -> cstep s (CWake x) = Some s' -> CInv s'.
+Proof.
+  intros I H. cbn [cstep] in H.
+  destruct (clock s) as [u|] eqn:Hc; [|discriminate]. destruct (cpc s u) eqn:Cu; try discriminate.
+  all: destruct (wake_head s x) as [s1|] eqn:W; [|discriminate]; inversion H; subst s';
+       eapply inv_wake; eauto; rewrite ?Cu; reflexivity.
+Qed.
+
+Lemma inv_bcast s s' : CInv s -> cstep s CBcast = Some s' -> CInv s'.
+Proof.
+  intros I H. cbn [cstep] in H. prep I H.
+  all: try assumption.
+  all: try solve [pt Iclk]. all: try solve [pt Iq]. all: try solve [pt Icr]. all: try solve [pt Icnt].
+  all: try solve [pt Ihold]. all: try solve [pt Idl]. all: try solve [pt Itm].
+
+Qed.
+
+Lemma inv_timeout s t v s' : CInv s -> cstep s (CTimeout t v) = Some s' -> CInv s'.
+Proof.
+  intros I H. cbn [cstep] in H. prep I H.
+  all: try assumption.
+  all: try solve [pt Iclk]. all: try solve [pt Iq]. all: try solve [pt Icr]. all: try solve [pt Icnt].
+  all: try solve [pt Ihold]. all: try solve [pt Idl]. all: try solve [pt Itm].
+  all: try solve [ intros x; rewrite cinb_unlink; pose proof (Iq x) as Hx; unfold upd; case_nat x t;
+                   use_pc_facts; cls; rewrite ?andb_true_r, ?andb_false_r; fin ].
+  all: apply nodup_unlink; assumption.
+Qed.
+
+Lemma inv_tick s n s' : CInv s -> cstep s (CTick n) = Some s' -> CInv s'.
+Proof.
+  intros I H. cbn [cstep] in H. prep I H.
+  all: try assumption.
+  all: try solve [pt Iclk]. all: try solve [pt Iq]. all: try solve [pt Icr]. all: try solve [pt Icnt].
+  all: try solve [pt Ihold]. all: try solve [pt Idl]. all: try solve [pt Itm].
+  intros x Hp. specialize (Idl x Hp). lia.
+Qed.
+
+(* woken or timed out: the next record of the caller is the first try_acquire of ABTI_mutex_lock *)
+Definition lockable (p : cpcT) : option cpcT :=
+  match p with CRdy | CER | CTPr | CTSr => Some CWLs | CTO => Some CWLt | _ => None end.
+
+Lemma cm_cases s me s' : cstep s (CM me) = Some s' ->
+  (Mutex.step (ms s) me = Some (ms s') /\ s' = set_ms s (ms s') /\
+   (forall t o, me = EBegin t o -> cpc s t = CIdle))
+  \/ (exists t f m1 q, me = ETry t f /\ lockable (cpc s t) = Some q /\ pc (ms s) t = Idle /\
+        Mutex.step (ms s) (EBegin t OLock) = Some m1 /\ Mutex.step m1 me = Some (ms s') /\
+        s' = set_cpc (set_ms s (ms s')) t q).
+Proof.
+  intros H. cbn [cstep] in H.
+  destruct me as [t o|t r|t f|t| |t| |t u|x| ].
+  3: { destruct (cpc s t) eqn:C; destruct (pc (ms s) t) eqn:P;
+       try (left; destruct (Mutex.step (ms s) (ETry t f)) as [m'|] eqn:E; [|discriminate];
+            inversion H; subst s'; cbn [ms set_ms]; repeat split; auto; intros; discriminate).
+       all: right; destruct (Mutex.step (ms s) (EBegin t OLock)) as [m1|] eqn:E1; [|discriminate];
+            destruct (Mutex.step m1 (ETry t f)) as [m'|] eqn:E2; [|discriminate];
+            inversion H; subst s'; exists t, f, m1; eexists; cbn [ms set_ms set_cpc lockable];
+            rewrite C; cbn [lockable]; repeat split; eauto. }
+  1,2: destruct (cpc s t) eqn:C; try discriminate.
+  all: left; match type of H with match Mutex.step ?m ?ev with _ => _ end = _ =>
+         destruct (Mutex.step m ev) as [m'|] eqn:E; [|discriminate];
+         inversion H; subst s'; cbn [ms set_ms]; repeat split; auto end.
+  all: try (intros ? ? Eq; inversion Eq; subst; assumption).
+  all: intros; discriminate.
+Qed.
+
+Lemma inv_cm s me s' : CInv s -> cstep s (CM me) = Some s' -> CInv s'.
+Proof.
+  intros I H. destruct (cm_cases _ _ _ H) as [(E & -> & Hb)|(t & f & m1 & q & -> & Lq & P & E1 & E2 & ->)].
+  - destruct I as [Iclk Iq Ind Icr Icnt Ihold Idl Itm]; constructor;
+    cbn [ms mid clock cwl wmx cpc tmd ulk dl now cret credit given taken set_ms] in *; try assumption.
+    intros x Hp. eapply holding_frame; [exact E|apply Ihold; exact Hp|].
+    intros o Eq. rewrite (Hb _ _ Eq) in Hp. discriminate.
+  - destruct I as [Iclk Iq Ind Icr Icnt Ihold Idl Itm]; constructor;
+    cbn [ms mid clock cwl wmx cpc tmd ulk dl now cret credit given taken set_ms set_cpc] in *; try assumption.
+    all: destruct (cpc s t) eqn:C; cbn in Lq; try discriminate; inversion Lq; subst q.
+    all: try solve [pt Iclk]. all: try solve [pt Iq]. all: try solve [pt Icr]. all: try solve [pt Icnt].
+    all: try solve [pt Idl]. all: try solve [pt Itm].
+    all: intros x Hp; unfold upd in Hp; destruct (Nat.eq_dec x t) as [->|Hne];
+         [ rewrite Nat.eqb_refl in Hp; discriminate
+         | rewrite (proj2 (Nat.eqb_neq x t) Hne) in Hp;
+           eapply holding_frame; [exact E2| |intros ? Eq; discriminate];
+           eapply holding_frame; [exact E1|apply Ihold; exact Hp|intros ? Eq; inversion Eq; congruence] ].
+Qed.
+
+Theorem cstep_inv s e s' : CInv s -> cstep s e = Some s' -> CInv s'.
+Proof.
+  intros I H. destruct e.
+  - eapply inv_cm; eauto.
+  - eapply inv_begin; eauto.
+  - eapply inv_end; eauto.
+  - eapply inv_acq; eauto.
+  - eapply inv_rel; eauto.
+  - eapply inv_bind; eauto.
+  - eapply inv_enq; eauto.
+  - eapply inv_signal; eauto.
+  - eapply inv_cwake; eauto.
+  - eapply inv_bcast; eauto.
+  - eapply inv_timeout; eauto.
+  - eapply inv_tick; eauto.
+Qed.
+
+Lemma cinv_run tr : forall s0 s, CInv s0 -> crun s0 tr = Some s -> CInv s.
+Proof.
+  induction tr as [|e r IH]; cbn; intros s0 s I H.
+  - inversion H; subst; exact I.
+  - destruct (cstep s0 e) eqn:E; try discriminate. eapply IH; [eapply cstep_inv; eauto|exact H].
+Qed.
+
+Theorem cinv_reachable rec m t0 tr s : crun (cinit rec m t0) tr = Some s -> CInv s.
+Proof. apply cinv_run, cinv_init. Qed.
+
